@@ -3,7 +3,7 @@
    start with 1 (Some) or 0 (None / error).  The command numbers are read by tools/models.py
    from the CMD comments below. *)
 From Coq Require Import ZArith List Bool.
-From VV Require Import lib.PyInt lib.PyFloat gen.GenTables model.Driver hw.Npu hw.Defuse model.Arena model.Preserve.
+From VV Require Import lib.PyInt lib.PyFloat gen.GenTables model.Driver hw.Npu hw.Defuse hw.Inference model.Arena model.Preserve.
 Import ListNotations.
 Open Scope Z_scope.
 
@@ -177,6 +177,68 @@ Definition run_check_defuse (a : list Z) : list Z :=
   | _ => [-1]
   end.
 
+(* ---- C03, whole inference ---- *)
+Fixpoint take_tsegs (n : nat) (a : list Z) : list tseg * list Z :=      (* (lo hi id)*: arena ranges, delta = lo *)
+  match n, a with
+  | S n', lo :: hi :: id :: t => let '(l, r) := take_tsegs n' t in ((ARENA, lo, hi, Tag id lo) :: l, r)
+  | _, _ => ([], a)
+  end.
+(* operators: 0 nr (lo hi id)* nw (lo hi id)*   |   1 b1 b2 nr (lo hi id)* nw (lo hi id)* nwords words *)
+Fixpoint take_tops (n : nat) (a : list Z) : option (list top) :=
+  match n with
+  | O => match a with [] => Some [] | _ => None end
+  | S n' =>
+      match a with
+      | 0 :: nr :: t =>
+          let '(rs, t1) := take_tsegs (Z.to_nat nr) t in
+          match t1 with
+          | nw :: t2 => let '(ws, t3) := take_tsegs (Z.to_nat nw) t2 in
+                        match take_tops n' t3 with Some l => Some (TCpu rs ws :: l) | None => None end
+          | [] => None
+          end
+      | 1 :: b1 :: b2 :: nr :: t =>
+          let '(rs, t1) := take_tsegs (Z.to_nat nr) t in
+          match t1 with
+          | nw :: t2 =>
+              let '(ws, t3) := take_tsegs (Z.to_nat nw) t2 in
+              match t3 with
+              | nwords :: t4 =>
+                  let '(words, t5) := take_n (Z.to_nat nwords) t4 in
+                  match run_stream words with
+                  | Some evs => match take_tops n' t5 with Some l => Some (TNpu b1 b2 rs ws evs :: l) | None => None end
+                  | None => None
+                  end
+              | [] => None
+              end
+          | [] => None
+          end
+      | _ => None
+      end
+  end.
+
+(* CMD check_inference = 9 : ncores lut_addr shram_size ninit (lo hi id)* nops operators
+   -> [1; ok; first bad operator index (-2: an output not written, then the operator index follows); demanded ...] | [0] *)
+Definition run_check_inference (a : list Z) : list Z :=
+  match a with
+  | nc :: la :: ss :: ninit :: t =>
+      let '(init, t1) := take_tsegs (Z.to_nat ninit) t in
+      match t1 with
+      | nops :: t2 =>
+          match take_tops (Z.to_nat nops) t2 with
+          | Some l =>
+              let hw := {| hw_ncores := nc; hw_lut_addr := la; hw_shram_size := ss |} in
+              if check_inference hw init l then [1; 1; -1]
+              else 1 :: 0 :: inference_first_bad hw init l ::
+                   (match top_ops hw 0 l with
+                    | Some ops => explain (fold_left hwrite init []) ops
+                    | None => [first_unwritten hw 0 l] end)
+          | None => [0]
+          end
+      | [] => [-1]
+      end
+  | _ => [-1]
+  end.
+
 (* ---- C12 ---- *)
 Fixpoint take_atens (n : nat) (a : list Z) : list atens * list Z :=
   match n, a with
@@ -266,4 +328,5 @@ Definition run (cmd : Z) (a : list Z) : list Z :=
   else if cmd =? 6 then run_check_defuse a
   else if cmd =? 7 then run_check_arena a
   else if cmd =? 8 then run_check_preserved a
+  else if cmd =? 9 then run_check_inference a
   else [-1].
